@@ -99,7 +99,7 @@ class Ctx:
             self.violation(f"TLC: {res.violation['kind']} {res.violation['name']} violated in "
                            f"{entry['module']} ({entry['cfg']})",
                            {"kind": "tlc", "module": entry["module"], "cfg": entry["cfg"],
-                            "violation": res.violation})
+                            "violation": {**res.violation, "trace": res.violation["trace"][:300000]}})
         if res.ok and require_cover and kw.get("coverage", True):
             dead = res.never_fired(ignore=tuple(ignore_cover))
             # definitions that are not actions (invariants, constraints, helpers) show up with counts too;
